@@ -249,7 +249,10 @@ type c06Obs struct {
 	P    *c06Snap        // PendingBatchSnapshot()
 	Perr string
 	S    []*c06Snap    // GetLocalBatchSnapshots()
+	Serr string        // "noOrder": a snapshot order is missing from the main bucket
 	G    [7]*c06Snap   // GetLocalBatchSnapshot(id), id=1..6
+	Gerr [7]bool       // ErrNoOrder
+	Enorefs [8]bool    // "order event sub bucket not found"
 	E    [8][]string   // GetOrderEvents(n)
 	Eerr [8]bool
 	bad  string // an observer failed unexpectedly
@@ -295,19 +298,27 @@ func (ob *c06Obs) str() string {
 	for i := 1; i <= 6; i++ {
 		if ob.G[i] != nil {
 			G = append(G, ob.G[i].str())
+		} else if ob.Gerr[i] {
+			G = append(G, fmt.Sprintf("%d!noOrder", i))
 		} else {
 			G = append(G, fmt.Sprintf("%d!", i))
 		}
 	}
 	for n := 1; n <= 7; n++ {
-		if ob.Eerr[n] {
+		if ob.Enorefs[n] {
+			E = append(E, fmt.Sprintf("%d!norefs", n))
+		} else if ob.Eerr[n] {
 			E = append(E, fmt.Sprintf("%d!", n))
 		} else {
 			E = append(E, fmt.Sprintf("%d:%s", n, joinOr(ob.E[n], ";")))
 		}
 	}
+	Sstr := joinOr(S, "|")
+	if ob.Serr != "" {
+		Sstr = "!" + ob.Serr
+	}
 	return fmt.Sprintf("A=%s a=%s O=%s o=%s P=%s S=%s G=%s E=%s", joinOr(A, ";"),
-		strings.Join(a, ";"), joinOr(O, ";"), strings.Join(o, ";"), P, joinOr(S, "|"),
+		strings.Join(a, ";"), joinOr(O, ";"), strings.Join(o, ";"), P, Sstr,
 		strings.Join(G, "|"), strings.Join(E, "|"))
 }
 
@@ -597,6 +608,8 @@ func (d *c06DB) observe() *c06Obs {
 			}
 		case errors.Is(err, clientdb.ErrNoOrder):
 			ob.Eerr[n] = true
+		case err.Error() == "order event sub bucket not found":
+			ob.Enorefs[n] = true
 		default:
 			fail("GetOrderEvents", err)
 		}
@@ -606,12 +619,16 @@ func (d *c06DB) observe() *c06Obs {
 		ob.P = d.fromSnap(p)
 	} else {
 		ob.Perr = c06ErrName(err)
-		if ob.Perr != "noPending" {
+		// noOrder: a staged order was deleted from the main bucket, the
+		// pending snapshot cannot be completed from it
+		if ob.Perr != "noPending" && ob.Perr != "noOrder" {
 			fail("PendingBatchSnapshot", err)
 		}
 	}
 	snaps, err := d.db.GetLocalBatchSnapshots()
-	if err != nil {
+	if errors.Is(err, clientdb.ErrNoOrder) {
+		ob.Serr = "noOrder"
+	} else if err != nil {
 		fail("GetLocalBatchSnapshots", err)
 	}
 	for _, s := range snaps {
@@ -621,6 +638,8 @@ func (d *c06DB) observe() *c06Obs {
 		s, err := d.db.GetLocalBatchSnapshot(d.w.batchID(i))
 		if err == nil {
 			ob.G[i] = d.fromSnap(s)
+		} else if errors.Is(err, clientdb.ErrNoOrder) {
+			ob.Gerr[i] = true
 		} else if !strings.Contains(err.Error(), "not found") {
 			fail("GetLocalBatchSnapshot", err)
 		}
@@ -1007,6 +1026,7 @@ func (c *c06Case) step(op string) {
 	var (
 		res      string
 		crashDir string
+		directDel = -1
 		stageExp *c06Snap // expected staged version (stage ops)
 		directA  map[int]c06Acct
 		directO  map[int]c06Ord
@@ -1124,6 +1144,10 @@ func (c *c06Case) step(op string) {
 		case "reopen":
 			d.reopen()
 			res = "ok"
+		case "delorder":
+			n := atoi(f[1])
+			res = c06ErrName(d.db.DeleteOrder(d.w.nonce(n)))
+			directDel = n
 		case "updorder":
 			n := atoi(f[1])
 			ms, _ := parseOMods(f[2])
@@ -1265,6 +1289,9 @@ func (c *c06Case) step(op string) {
 		c.violate("failed call (%s) changed observable state:\n before %s\n after  %s", res, prev.str(), ob.str())
 	}
 	for n := 1; n <= 7; n++ { // events are append-only
+		if n == directDel || ob.Enorefs[n] || prev.Enorefs[n] {
+			continue
+		}
 		if len(ob.E[n]) < len(prev.E[n]) || strings.Join(ob.E[n][:len(prev.E[n])], ";") != strings.Join(prev.E[n], ";") {
 			c.violate("event log of order %d rewritten", n)
 		}
@@ -1274,6 +1301,13 @@ func (c *c06Case) step(op string) {
 			want.Tx, got.Tx = 0, 0 // serializer keeps no LatestTx in these states
 		}
 		return got == want
+	}
+	if prev.Perr == "noOrder" || ob.Perr == "noOrder" {
+		// the staged batch exists but cannot be read (one of its orders
+		// was deleted): the per-op oracle below needs its content; these
+		// steps are covered by the correspondence with the model only
+		r.Count("oracle/pending-unreadable")
+		return
 	}
 	switch f[0] {
 	case "crashstage":
@@ -1357,10 +1391,26 @@ func (c *c06Case) step(op string) {
 				c.violate("order %d after complete: got %v want %v", n, ob.O[n], want)
 			}
 		}
-		if len(ob.A) != len(prev.A) || len(ob.O) != len(prev.O) {
-			c.violate("complete created or removed accounts/orders")
+		wantOrders := len(prev.O)
+		for n, so := range p.O {
+			if _, had := prev.O[n]; had {
+				continue
+			}
+			// a staged order that was deleted from the main bucket
+			// after staging: completion applies the staged version
+			wantOrders++
+			r.Count("complete/resurrects-deleted-order")
+			got, found := ob.O[n]
+			if !found || got.State != so.State || got.Unfilled != so.Unfilled || got.Units != so.Units {
+				c.violate("staged order %d (deleted meanwhile) after complete: got %v want staged %v", n, got, so)
+			}
 		}
-		if len(ob.S) != len(prev.S)+1 || !c06SnapEq(ob.S[len(ob.S)-1], p) {
+		if len(ob.A) != len(prev.A) || len(ob.O) != wantOrders {
+			c.violate("complete created or removed accounts/orders beyond the staged ones")
+		}
+		if ob.Serr != "" || prev.Serr != "" {
+			r.Count("complete/snapshots-unreadable")
+		} else if len(ob.S) != len(prev.S)+1 || !c06SnapEq(ob.S[len(ob.S)-1], p) {
 			c.violate("snapshot history after complete is not old history + staged snapshot")
 		} else {
 			for i := range prev.S {
@@ -1374,7 +1424,7 @@ func (c *c06Case) step(op string) {
 				if !c06SnapEq(ob.G[i], p) {
 					c.violate("snapshot not filed under its batch id %d", i)
 				}
-			} else if !c06SnapEq(ob.G[i], prev.G[i]) {
+			} else if !c06SnapEq(ob.G[i], prev.G[i]) && !prev.Gerr[i] {
 				c.violate("snapshot of batch %d changed by completing batch %d", i, p.ID)
 			}
 		}
@@ -1405,12 +1455,16 @@ func (c *c06Case) step(op string) {
 				wantA[kk] = a
 			}
 			for n, so := range prev.P.O {
-				o := wantO[n]
+				o, had := wantO[n]
+				if !had {
+					continue // deleted meanwhile: checked by the complete oracle
+				}
 				o.State, o.Unfilled = so.State, so.Unfilled
 				wantO[n] = o
 			}
 			wantP, wantS = nil, wantS+1
-			if len(ob.S) != wantS || !c06SnapEq(ob.S[len(ob.S)-1], prev.P) || !c06SnapEq(ob.G[prev.P.ID], prev.P) {
+			if ob.Serr == "" && prev.Serr == "" &&
+				(len(ob.S) != wantS || !c06SnapEq(ob.S[len(ob.S)-1], prev.P) || !c06SnapEq(ob.G[prev.P.ID], prev.P)) {
 				c.violate("spend with a staged batch did not file the staged snapshot")
 			}
 		} else if kind == "expiry" && prev.P != nil {
@@ -1422,7 +1476,7 @@ func (c *c06Case) step(op string) {
 		if !ok {
 			c.violate("account spend failed: %s", res)
 		}
-		if !c06SnapEq(ob.P, wantP) || len(ob.S) != wantS {
+		if !c06SnapEq(ob.P, wantP) || (ob.Serr == "" && prev.Serr == "" && len(ob.S) != wantS) {
 			c.violate("account spend: staged batch / snapshot history not as expected")
 		}
 		for kk, w := range wantA {
@@ -1498,6 +1552,12 @@ func (c *c06Case) step(op string) {
 			}
 		}
 		for n, o := range prev.O {
+			if n == directDel {
+				if _, found := ob.O[n]; found {
+					c.violate("order %d still visible after DeleteOrder", n)
+				}
+				continue
+			}
 			if w, in := directO[n]; in {
 				o = w
 			}
@@ -1505,7 +1565,7 @@ func (c *c06Case) step(op string) {
 				c.violate("order %d after %s: got %v want %v", n, f[0], ob.O[n], o)
 			}
 		}
-		if fmt.Sprint(ob.S) != fmt.Sprint(prev.S) && len(ob.S) != len(prev.S) {
+		if ob.Serr == "" && prev.Serr == "" && len(ob.S) != len(prev.S) {
 			c.violate("direct update changed the snapshot history")
 		}
 	}
@@ -1786,6 +1846,12 @@ func (g *c06Gen) history() []string {
 			} else {
 				ops = append(ops, g.addacct(1+rng.Intn(g.nA))) // overwrite
 			}
+		case x < 90:
+			n := 1 + rng.Intn(g.nO)
+			if rng.Intn(8) == 0 {
+				n = 7
+			}
+			ops = append(ops, fmt.Sprintf("delorder %d", n))
 		case x < 91:
 			if g.nO < 6 && rng.Intn(2) == 0 {
 				g.nO++
